@@ -54,7 +54,7 @@ chk("C05", "model_checking", "E1",
     "deviation-bounded exploration of real noisy runs (noise-class scripts) over complete budget windows; tail of the call log vs yval_vec/ysd_vec/fval/fsd",
     "mode{auto,declared,specified} x noise_final_samples{0,1,3} x every budget in a window above the measured initial design x D x geometry x noise scripts with <= b deviations "
     "(LOW outliers force the swap to an earlier iterate); noise-test cells around tol_noise decide stochastic vs deterministic classification.",
-    "Noise classes {alt, LOW, HIGH}; either ddof accepted for the standard error.", "DESIGN 4.5")
+    "Noise classes {alt, LOW, HIGH}; the SD convention of the standard error (population / sample) is measured on runs with 3 and 5 final samples and every run is held to it.", "DESIGN 4.5")
 chk("C09", "model_checking", "E1",
     "deviation-bounded exploration of real runs over the mode x constraint x geometry x budget matrix incl. NaN incumbent predictions and single GP-fit faults; oracle = no internal exception escapes",
     "Complete product mode{det,auto,decl,spec} x constraint{none,half,ball,slab,annulus} x geometry{lin,log,mixed} x D, corner landscapes under specified noise (repeated observations), "
@@ -77,11 +77,11 @@ chk("C06", "exploration", "E3-panel",
     "than its snapped start (the per-run clause is also checked on every execution of C04's exploration).",
     "No claim outside the lattice; one seed per run derived from VERIF_SEED.", "DESIGN 4.6")
 chk("C07", "model_checking", "E2-histories",
-    "explicit enumeration of process histories (<= 2 activities from a 10-letter alphabet in two slots), each replayed in a fresh interpreter, against a history-free reference; bit-identical digests",
+    "explicit enumeration of process histories (<= 2 activities from a 12-letter alphabet in two slots), each replayed in a fresh interpreter, against a history-free reference; bit-identical digests",
     "For every problem (det / noisy drawing from the global generator / heavy noise / constrained; x0 given or absent; D=1,2) every history with <= 2 activities before construction and/or between "
     "construction and optimize() is executed in a fresh interpreter and the SHA-256 of all evaluated points, returned values and result fields is compared with the history-free reference "
     "(itself run under two hash seeds); a long-lived interpreter additionally chains cases.",
-    "Activity alphabet of 10 (RNG draws, other runs incl. noisy / 1-D narrow / forced double refit, construction only, logging and print options, re-used bound arrays); histories longer than 2 only through the chained worker.", "DESIGN 4.7")
+    "Activity alphabet of 12 (RNG draws, other runs incl. noisy / 1-D narrow / forced double refit, construction only, logging, print options and print formatters, re-used bound arrays, a re-used options dict); histories longer than 2 only through the chained worker.", "DESIGN 4.7")
 chk("C08", "model_checking", "E3",
     "exhaustive enumeration of constructor input cells (value lattice^5 for D=1, class products for D=2,3, dimension mismatches, spellings) against an independent 3-valued validator",
     "Every assignment of (x0, lb, plb, pub, ub) from a per-argument lattice (absent, +-inf, NaN, finite values in every relative order, one-ulp neighbours, a decade, a plausible pair inside "
